@@ -136,7 +136,14 @@ func init() {
 				for i := 0; i < n; i++ {
 					// (re)initialise the stored list locally: a mix of changeable, unchangeable and flag-less elements
 					if i == 0 || w.T.Bool(1, 2, "reinit") {
-						init := GenList(info, genItems(w, info, 2+w.T.Choose(3, "ninit"), 3, 4, flags))
+						items := genItems(w, info, 2+w.T.Choose(3, "ninit"), 3, 4, flags)
+						if w.T.Bool(1, 4, "stored-element-without-identifier") {
+							// identifiers are optional: an element without one is addressed by no selector
+							// and by no identifier
+							items = append([]reflect.Value{w.GenItem(info.ItemType, nil, 3, 4, flags())}, items...)
+							w.Probe("c04-stored-element-without-identifier")
+						}
+						init := GenList(info, items)
 						srv.F.SetData(info.Fn, init)
 					}
 					before := absOf(info, srv.F.DataCopy(info.Fn))
@@ -169,7 +176,22 @@ func init() {
 					}
 					wc := shapeOf(info.ItemType).WC
 					for _, it := range before {
-						id, _ := it.identifier(keys)
+						id, hasID := it.identifier(keys)
+						if !hasID {
+							// an element without identifier: found again by its content
+							if !it.changeable(info) {
+								found := false
+								for _, a := range after {
+									if a.String() == it.String() {
+										found = true
+									}
+								}
+								if !found {
+									w.Violate("C04/protected-element-modified/"+u.shape, "%s", detail)
+								}
+							}
+							continue
+						}
 						a, present := byID[id]
 						if !it.changeable(info) {
 							if !present {
